@@ -1,0 +1,56 @@
+//go:build verif && (verif_all || verif_c09)
+// +build verif
+// +build verif_all verif_c09
+
+package gocql
+
+// Verification hooks (build tag `verif`): thin exported wrappers over unexported
+// pure cores so that the external verification harness can call them. Add-only.
+
+import (
+	"fmt"
+
+	"github.com/gocql/gocql/internal/murmur"
+)
+
+// VerifMurmur3H1 exposes internal/murmur.Murmur3H1.
+func VerifMurmur3H1(b []byte) int64 { return murmur.Murmur3H1(b) }
+
+func verifPartitioner(name string) partitioner {
+	switch name {
+	case "murmur3":
+		return murmur3Partitioner{}
+	case "ordered":
+		return orderedPartitioner{}
+	case "random":
+		return randomPartitioner{}
+	}
+	panic(fmt.Sprintf("verif: unknown partitioner %q", name))
+}
+
+// VerifHash returns partitioner.Hash(key).String().
+func VerifHash(part string, key []byte) string {
+	return verifPartitioner(part).Hash(key).String()
+}
+
+// VerifParseToken returns partitioner.ParseString(s).String().
+func VerifParseToken(part string, s string) string {
+	return verifPartitioner(part).ParseString(s).String()
+}
+
+// VerifTokenLess parses both strings with the partitioner and compares them with token.Less.
+func VerifTokenLess(part string, a, b string) bool {
+	p := verifPartitioner(part)
+	return p.ParseString(a).Less(p.ParseString(b))
+}
+
+// VerifHashLess hashes both keys with the partitioner and compares the tokens with token.Less.
+func VerifHashLess(part string, a, b []byte) bool {
+	p := verifPartitioner(part)
+	return p.Hash(a).Less(p.Hash(b))
+}
+
+// VerifCreateRoutingKey exposes createRoutingKey.
+func VerifCreateRoutingKey(types []TypeInfo, indexes []int, values []interface{}) ([]byte, error) {
+	return createRoutingKey(&routingKeyInfo{indexes: indexes, types: types}, values)
+}
